@@ -4,10 +4,68 @@ import json, os
 HERE = os.path.dirname(os.path.abspath(__file__))
 PY = '/venv/bin/python'
 
+A_NOTE = ('Trusts: the finite scenario/seed alphabet (exhaustive within each scenario and deviation budget, not over all likelihoods and seeds); FakePool as model of a process pool (cross-checked against real multiprocessing pools in C11); that no state lives only in module globals (two fresh-process replays of the default path of every scenario with different PYTHONHASHSEED/legacy seed/COLUMNS must give identical per-depth state digests, else exit 2).')
 CHECKS = {
- 'C01': dict(engine='smc', level='model_checking', tech='explicit-state model checking of the real Sampler: BFS over run-slice/resume histories with state de-duplication; partition invariant on every transition',
-   text='Every history of one-batch run() slices and resume-from-file actions (resume budget 1 quick / 2 thorough) of each scenario is enumerated to termination on the real Sampler; the partition invariant (stored point in cube, in own bound, in no later bound, shell_association agrees, transfer candidates consistent) is evaluated after every transition, i.e. at every batch boundary and after every bound insertion on native and resumed samplers. Exhaustive within the scenario list and budgets, not over all likelihoods/seeds.',
-   note='Trusts the implementation\'s own contains() as the membership predicate (C07/C09 guard its meaning), the finite scenario/seed alphabet, FakePool as model of a process pool, and that state held only in module globals does not exist (checked by two fresh-process replays of the default path).', ref='3/C01'),
+ 'C01': dict(engine='smc', level='model_checking', ref='3/C01',
+   tech='explicit-state model checking of the real Sampler: BFS over run-slice/resume histories with structural state hashing; partition invariant evaluated on every transition',
+   text='Every history of one-batch run() slices and resume-from-file actions (resume budget 1 quick / 2 thorough) of each scenario is enumerated to termination on the real Sampler with state de-duplication; the partition invariant (stored point in cube, in own bound, in no later bound, shell_association agrees, pending/transferred transfer candidates consistent) is evaluated after every transition, i.e. at every batch boundary and after every bound insertion, on native and resumed samplers.',
+   note='Trusts the implementation\'s own contains() as the membership predicate (C07/C09 guard its meaning). ' + A_NOTE),
+ 'C02': dict(engine='smc', level='model_checking', ref='3/C02',
+   tech='explicit-state model checking of the real Sampler (slice/resume/toggle histories); estimators recomputed from raw arrays plus an independent proposal tally on every transition',
+   text='All histories over {one-batch slice, resume, discard toggle} within the budgets are enumerated; after every transition log_z, n_eff, eta, per-shell statistics and posterior() weights are recomputed from points/log_l/bounds[i].log_v only and compared at rtol 1e-9; proposal counts are checked against an independent tally taken by wrapping the bounds\' sample() methods.',
+   note='Oracle sums in a different order than the implementation (rtol 1e-9); states with only -inf likelihoods skipped. ' + A_NOTE),
+ 'C03': dict(engine='smc', level='model_checking', ref='3/C03',
+   tech='explicit-state model checking of the real Sampler over evaluation modes x blob kinds x batch sizes; every posterior row re-evaluated with the pure likelihood',
+   text='Histories over {slice, resume, toggle} for scenarios covering scalar/vectorised, array/dict (Prior object and function), in-place-mutating prior, likelihood pool, n_batch 1/2/7/15/20 and seven blob kinds; at every state every posterior row is re-evaluated with the pure likelihood (log L and blob bit-identical), rows are distinct and equal the stored points as a multiset.',
+   note='Likelihood alphabet uses only exactly rounded arithmetic so scalar and vectorised evaluation agree bit for bit. ' + A_NOTE),
+ 'C05': dict(engine='smc', level='model_checking', ref='3/C05',
+   tech='explicit-state model checking: every batch boundary as stop point x {continue in memory, resume from file} x slicings by n_like_max and virtual timeouts; terminal-result agreement and no-point-twice',
+   text='Every batch boundary of each scenario is a stop point with both continuations; every sequence of stops with up to 1 (quick) / 2 (thorough) resumes and arbitrarily many in-memory stops is enumerated, with coarser slicings (two-batch slices, timeout-limited slices on a virtual clock, finish) from the visited states; all terminal states of a scenario must show one bit-identical observation (posterior incl. blobs, log_z, n_eff, n_like) and no point may be evaluated twice on any path.',
+   note='Mid-step checkpoints that only a kill can expose are C06\'s. ' + A_NOTE),
+ 'C06': dict(engine='crashmc', level='fault_enumeration', ref='3/C06',
+   tech='exhaustive crash-point enumeration: strace-recorded syscall history of the real write path replayed into a file-system model, every syscall boundary (thorough: every page-torn write) checked by a recovery oracle; model validated by real SIGKILL injection',
+   text='For complete recorded runs, every position after a syscall that mutates the checkpoint directory is taken as a crash point; the directory image must hold exactly the last completed or the in-progress checkpoint state (logical HDF5 digest), never be missing after the first checkpoint, and Sampler(resume=True)+one run slice on the whole image (left-over temporaries included) must succeed. Every completed checkpoint is resumed, checked with the C01/C02 state monitors and run to completion.',
+   note='A kill preserves completed syscalls (no power-loss model); single writer process; the file-system model is validated per run (final image byte-identical; real kills at chosen pwrite64 ordinals leave exactly the model image).'),
+ 'C07': dict(engine='boundmc', level='model_checking', ref='3/C07',
+   tech='exhaustive finite product of bound class x dimension x point family x enlargement x unit x pool, with BFS over split/trim histories of unions (scripted GMM seeds); soundness oracle in every visited state',
+   text='All bound classes are built through compute() over a finite product of dimensions 1-8, nine point-set families, four enlargements, unit/non-unit, pools; unions are explored over all split/trim sequences to the depth cap; in every state samples must be contained and inside the cube, construction points enclosed, neural/nautilus bounds inside their outer bound.',
+   note='Enlargement >= 1+1e-6, non-degenerate point sets; sampled points come from seeded PCG64 streams.'),
+ 'C08': dict(engine='envmc', level='exploration', ref='3/C08',
+   tech='exhaustive enumeration of scripted random-generator answers: every lattice probe x proposing member x all acceptance thresholds driven through the real Union.sample pipeline',
+   text='Decides uniformity exactly instead of statistically: each probe is proposed from every member containing it and must be kept in exactly M/m of M equally spaced thresholds; multinomial weights equal member volumes; counters count proposed and rejected; closed-form volumes match det A; pool merging equals the workers\' reports; also after HDF5 round trips.',
+   note='Probes within 1e-6 of a surface dropped; uniformity of numpy\'s own normal/uniform streams trusted.'),
+ 'C09': dict(engine='boundmc', level='model_checking', ref='3/C09',
+   tech='every bound state of the C07 state enumeration written to an in-memory HDF5 group and read back; behavioural equality under a cloned generator',
+   text='contains() on lattice + construction + stream points, log_v, and three sample() streams (1/100/2500 points) must be bit-identical between a bound and its read-back for every class, unit T/F, periodic, 0-2 networks with non-default hyper-parameters, fresh/split/trimmed/partly sampled; write-sample-update-read must equal a full write.',
+   note='split() after a read is outside the statement.'),
+ 'C10': dict(engine='smc', level='model_checking', ref='3/C10',
+   tech='explicit-state model checking with an instrumented pure likelihood/prior: call log vs counter, batch grouping, support, budget, virtual timeouts and return-value predicate on every transition',
+   text='Histories over slices, two-batch slices, timeout-limited slices (virtual clock), caps at/below the current count, resume, finish and raised targets; on every transition the counter equals logged calls, batches have exactly n_batch points inside [0,1)^d, no batch starts at or over the limit, a limit that is already reached changes nothing, and run() returns True exactly when the independently recomputed success predicate holds.',
+   note='Return value not judged when recomputed n_eff is within 1e-9 of the target. ' + A_NOTE),
+ 'C11': dict(engine='smc', level='model_checking', ref='3/C11',
+   tech='explicit-state model checking: accessor self-loops at every reachable state, all bounded deviations of pool completion order, lock-step product runs of configurations that must be indistinguishable',
+   text='(a) the full set of read-only accessors is a self-loop on the state digest at every reachable state; (b) scalar vs vectorised, verbose, file vs no file, likelihood pool None/2/3/4 pairs agree at every depth; (c) every batch with a deviating completion order (bounded deviations) reaches the same states; (d) real multiprocessing pools give the serial result.',
+   note='"unweighted posterior" = posterior() with defaults. ' + A_NOTE),
+ 'C12': dict(engine='smc', level='model_checking', ref='3/C12',
+   tech='explicit-state model checking with toggles of discard_exploration at batch boundaries x resumes; freeze/append-only transition relation, view exactness via a history variable, toggle involution, three-ways product run',
+   text='Histories over {slice, resume, toggle} with up to 2 (quick) / 3 (thorough) toggles; after exploration bounds are structurally frozen, shells non-empty, arrays append-only; with discard on the view is exactly the points evaluated after exploration ended (tracked as a history variable); toggle;toggle is the identity; discard requested via run(), setter, or setter after resume agree at every later batch.',
+   note='A toggle after the last checkpoint is not persisted (resume is compared with the last checkpoint). ' + A_NOTE),
+ 'C13': dict(engine='boundmc', level='model_checking', ref='3/C13',
+   tech='BFS over all split/trim sequences of real Union objects with scripted GMM seeds and structural state hashing, to closure where the graph closes; reference model of per-ellipsoid records',
+   text='All operation sequences over {split with/without overlap x GMM seed, trim(1e3), trim(1e-9)} with sample/log_v/reset as self-loops, on 8 (quick) / 13 (thorough) point sets; record alignment, child sizes, point conservation, volume monotonicity, refused-operation purity, cache reset, no exception.',
+   note='GMM seed scripted from a 2-3 value alphabet.'),
+ 'C14': dict(engine='envmc', level='exploration', ref='3/C14',
+   tech='exhaustive enumeration of the stochastic-rounding threshold (64 scripted answers of sampler.rng.random) x boosts over weight vectors of real sampler states',
+   text='For weight vectors of real sampler states (incl. -inf samples, both discard views, blobs) and boosts {0.3,1,2.5,10}: multiplicity in {floor r, floor r + 1} in every execution, exact expectation on the threshold lattice, no repeats for boost<=1, order/likelihood/blob preservation, equal normalised weights, weighted posterior unchanged.',
+   note='Rows with r within 1e-9 of an integer excluded from the multiplicity clause.'),
+ 'C15': dict(engine='enum', level='exploration', ref='3/C15',
+   tech='bounded-exhaustive enumeration of all declaration programs up to length 4/5 (incl. every malformed declaration at every position) against a reference interpreter',
+   text='All programs over named/auto keys x {uniform, scipy norm, fixed number, link to each earlier key}; dimensionality, inverse CDF in declaration order, monotonicity, shapes, dictionary completeness; every malformed declaration must raise ValueError/TypeError and leave the prior unchanged.',
+   note='Distributions limited to uniform and scipy.stats.norm; ppf compared at rtol 1e-9.'),
+ 'C16': dict(engine='enum', level='exploration', ref='3/C16',
+   tech='exhaustive enumeration of float neighbourhoods (+-8/64 ulps) of all critical values x centres x periodic subsets, plus an end-to-end scripted-generator witness',
+   text='Range [0,1), untouched non-periodic coordinates, round trip within 4 ulp on the circle, largest gap across the boundary for all multisets of size <=4/5 on a grid; witness through NautilusBound.sample.',
+   note='d = 2, 3.'),
 }
 NOT_YET = {}
 NA = {
